@@ -429,6 +429,14 @@ func (n *not) Execute(searcher index.GetSearcher, seriesID common.SeriesID, tr *
 	return all, allTS, err
 }
 
+// ShouldSkip never prunes a block for a negated condition: bloom and dictionary
+// filters can only prove that a value is absent, which says nothing about the
+// rows that do not carry it. Without this method the call fell through to the
+// embedded nil index.Filter and crashed the process.
+func (n *not) ShouldSkip(_ index.FilterOp) (bool, error) {
+	return false, nil
+}
+
 func (n *not) MarshalJSON() ([]byte, error) {
 	data := make(map[string]interface{}, 1)
 	data["not"] = n.Inner
@@ -461,7 +469,12 @@ func (eq *eq) Execute(searcher index.GetSearcher, seriesID common.SeriesID, tr *
 }
 
 func (eq *eq) ShouldSkip(tagFamilyFilters index.FilterOp) (bool, error) {
-	return !tagFamilyFilters.Eq(eq.Key.Tags[0], eq.Expr.String()), nil
+	// Probe the block filters with the stored encoding of the literal (for an int
+	// the 8-byte form, not its decimal string, which the filters never contain).
+	if bb := eq.Expr.Bytes(); len(bb) == 1 {
+		return !tagFamilyFilters.Eq(eq.Key.Tags[0], convert.BytesToString(bb[0])), nil
+	}
+	return false, nil
 }
 
 func (eq *eq) MarshalJSON() ([]byte, error) {
